@@ -13,6 +13,8 @@ RULE = ("scenarios {1 command; 1 experiment; chain of 2; 2 parallel + dependent 
         "internal error; every virtual process that was running at the injection point has its process group in a killpg(SIGTERM) "
         "call by the end; the index holds no row for a task whose child had not exited 0. non-trivial = injection point reached with "
         "a distinct (function, line, number of live processes); distinct = that triple per scenario"
+        " The planning phase (from the entry of the run command to the first process start) is injected separately with whatever the "
+        "process's current SIGINT disposition raises (so a handler that is installed too late shows)."
         " A third family delivers SIGINT / SIGTERM through the process's actual signal disposition while each task is in flight, for "
         "every combination of inherited dispositions {default, ignored} of the two signals (same oracle); a SIGTERM sent with kill() to a "
         "group leader alone does not count as signalling the group."
@@ -69,12 +71,33 @@ def items(tier):
     for i, c in enumerate(scenarios(tier)[:8]):
         for ch in range(NCHUNKS // 3):
             out.append({"case": c, "chunk": ch, "nchunks": NCHUNKS // 3, "scn_index": i, "bound": 0, "granularity": "evalbreaker"})
+    # planning phase: every line from the entry of the run command on, the exception being whatever the process's CURRENT SIGINT
+    # disposition raises (Conductor's handler must already be installed)
+    for i, c in enumerate(scenarios(tier)):
+        if c.get("git") or c.get("with_include") or len(c["g"]) == 2:
+            out.append({"kind": "planning", "case": c, "scn_index": i})
     # third family: the signal is taken by whatever disposition the process has at that moment - for every disposition `cond` can
     # inherit from its launcher (default, ignored: `cmd &` in a non-interactive shell, nohup-like wrappers), for both signals,
     # while each process task is in flight
     for i, c in enumerate(scenarios(tier)[:7]):
         out.append({"kind": "disposition", "case": c, "scn_index": i})
     return out
+
+
+def interrupt_as_disposed():
+    """What a SIGINT does to this process right now: the installed Python handler raises its exception, the interpreter's default
+    raises KeyboardInterrupt, SIG_DFL/SIG_IGN cannot be expressed as an exception (returned as markers)."""
+    import signal
+    h = signal.getsignal(signal.SIGINT)
+    if h is signal.default_int_handler:
+        return KeyboardInterrupt()
+    if h in (signal.SIG_DFL, signal.SIG_IGN, None):
+        return RuntimeError("SIGINT with disposition %r" % (h,))
+    try:
+        h(signal.SIGINT, None)
+    except BaseException as ex:  # noqa
+        return ex
+    return RuntimeError("the SIGINT handler returned without raising")
 
 
 DISPOSITIONS = ["default", "ignored"]
@@ -140,6 +163,53 @@ def run_disposition(item, res, found):
                                          "exit": r.exit, "stderr": r.err_text[:80]}
 
 
+def run_planning(item, res, found, only_k=None):
+    scn = rungrid.make_scenario(item["case"])
+    start_in = ("cli/run.py", "main")
+    counts = []
+    for _ in range(5):
+        counter = inject.AbortInjector(None, start_after=None, start_in=start_in)
+        explore.execute(scn, [], tracer=counter)
+        counts.append(counter.count)
+        if len(counts) >= 2 and counts[-1] == counts[-2] and counts[-1] > 0:
+            break
+    # the planning phase ends with the first spawn / Running line: only the events up to the first process start are used
+    first = None
+    probe = inject.AbortInjector(None, start_after=None, start_in=start_in)
+    probe.on_count = None
+    N = counts[-1]
+    if len(counts) < 2 or counts[-1] != counts[-2] or N == 0:
+        raise RuntimeError("planning injection-point count not deterministic: %r" % (counts,))
+    for k in (range(0, N) if only_k is None else [only_k]):
+        inj = inject.AbortInjector(k, exc_factory=interrupt_as_disposed, start_after=None, start_in=start_in)
+        state = {}
+
+        def on_fire(i):
+            vk = vkmod.CURRENT["vk"]
+            state["spawned"] = any(e[0] == "spawn" for e in vk.log)
+        inj.on_fire = on_fire
+        obs = explore.execute(scn, [], tracer=inj, allow_unconsumed=True, timeout=5)
+        res["evals"] += 1
+        if inj.fired_at is None or inj.skipped_finalizer:
+            continue
+        if state.get("spawned"):
+            break      # execution has begun: the other families take over
+        res["sigs"].add(explore.sig([item["scn_index"], "planning", inj.fired_at]))
+        art = {"kind": "planning", "case": item["case"], "k": k}
+        r = obs.res
+        where = "%s:%s:%d" % (inj.fired_at[1], inj.fired_at[0], inj.fired_at[2])
+        if r.exc is not None:
+            found.setdefault("planning:%s" % type(r.exc).__name__,
+                             ("SIGINT while planning (%s): cond dies with %s instead of reporting the abort" % (where, type(r.exc).__name__), art))
+        elif r.exit == 0:
+            found.setdefault("planning:exit-zero", ("SIGINT while planning (%s): exit status 0" % where, art))
+        elif "aborted" not in r.err_text:
+            found.setdefault("planning:not-reported", ("SIGINT while planning (%s): exit %r but stderr %r" % (where, r.exit, r.err_text[:200]), art))
+        if obs.rows and any((row[0], row[1]) not in {(x[0], x[1]) for x in (scn.get("index_rows") or [])} for row in obs.rows):
+            found.setdefault("planning:recorded", ("SIGINT while planning (%s): a version was recorded" % where, art))
+    res["sample"] = {"argv": scn["argv"], "planning_points": N}
+
+
 def schedules(scn, bound=0):
     found = []
     explore.explore(scn, bound, lambda obs: found.append(list(obs.choices)))
@@ -194,6 +264,11 @@ def check(inj, state, obs, viol_cb, art):
 def run_item(item, tier):
     res = {"evals": 0, "sigs": set(), "violations": [], "counters": {}, "sample": None}
     found = {}
+    if item.get("kind") == "planning":
+        run_planning(item, res, found)
+        for key, (what, art) in found.items():
+            res["violations"].append({"key": key, "what": what, "artefact": art})
+        return res
     if item.get("kind") == "disposition":
         run_disposition(item, res, found)
         for key, (what, art) in found.items():
@@ -237,6 +312,11 @@ def run_item(item, tier):
 
 
 def replay(artefact):
+    if artefact.get("kind") == "planning":
+        res = {"evals": 0, "sigs": set(), "sample": None}
+        found = {}
+        run_planning({"case": artefact["case"], "scn_index": -1}, res, found, only_k=artefact.get("k"))
+        return [(k, w) for k, (w, a) in found.items()]
     if artefact.get("kind") == "disposition":
         res = {"evals": 0, "sigs": set(), "sample": None}
         found = {}
